@@ -195,6 +195,22 @@ class Engine:
     def oblige(self, p, name, goal, kind='assert', assume_after=True):
         if isinstance(goal, bool):
             goal = z3.BoolVal(goal)
+        if kind in ('ensures', 'invariant', 'precondition', 'hint') and z3.is_and(goal) and assume_after:
+            # one obligation per conjunct: smaller queries, and a failure names the conjunct
+            parts = []
+
+            def flat(t):
+                if z3.is_and(t):
+                    for c in t.children():
+                        flat(c)
+                else:
+                    parts.append(t)
+            flat(goal)
+            if 1 < len(parts) <= 150:
+                last = None
+                for i, c in enumerate(parts):
+                    last = self.oblige(p, '%s [conjunct %d/%d]' % (name, i + 1, len(parts)), c, kind, True)
+                return last
         o = Obligation(name, kind, list(p.pc), goal, list(p.trace), self.unit, dict(self.inputs), self.props)
         self.obls.append(o)
         if assume_after:
@@ -431,7 +447,7 @@ class Engine:
                     out.append((q, False))
         return out
 
-    def veq(self, p, a, b):
+    def veq(self, p, a, b, strict=False):
         """Bool term for a == b (Python ==), term level, no forking"""
         if isinstance(a, VUnion) and isinstance(b, VUnion):
             return a.t == b.t
@@ -443,6 +459,10 @@ class Engine:
             if isinstance(b, VTuple):
                 k, t = storable(b)
                 return z3.And(a.is_(k), a.get(k) == t)
+            if strict and isinstance(b, (VBool, VInt)):
+                # specification equality is kind-strict: an int field equals an int, a bool field a bool
+                k = b.kind
+                return z3.And(a.is_(k), a.get(k) == b.t)
             if isinstance(b, VBool):
                 return z3.Or(z3.And(a.is_('bool'), a.get('bool') == b.t),
                              z3.And(a.is_('int'), a.get('int') == as_int(b)))
@@ -620,8 +640,8 @@ class Engine:
             terms = [z3.Unit(storable(v)[1]) for v in vs2]
             t = terms[0] if len(terms) == 1 else z3.Concat(*terms)
             return [Res(q, VList(t, k0))]
-        if any(isinstance(e, ast.Tuple) for e in node.elts):
-            # tuples whose components are fields (unions) must be resolved first
+        if True:
+            # elements (and tuple components) that are fields (unions) must be resolved first
             def mk2(q, vs):
                 outs = [(q, [])]
                 for v in vs:
@@ -638,7 +658,8 @@ class Engine:
                             for (q3, a3) in comps:
                                 nxt.append((q3, acc + [VTuple(a3)]))
                         else:
-                            nxt.append((qq, acc + [v]))
+                            for (q4, cv) in self.cases(qq, v):
+                                nxt.append((q4, acc + [cv]))
                     outs = nxt
                 res = []
                 for (qq, acc) in outs:
@@ -933,7 +954,7 @@ class Engine:
         if isinstance(op, (ast.Eq, ast.NotEq)):
             if a is None or b is None:
                 raise Unsupported('== on unset')
-            t = self.veq(p, a, b)
+            t = self.veq(p, a, b, strict=fc.spec)
             return z3.Not(t) if isinstance(op, ast.NotEq) else t
         if isinstance(op, (ast.In, ast.NotIn)):
             t = self.contains(p, a, b)
